@@ -96,7 +96,7 @@ def main():
                 jobs.append((f, rng.choice((0, 1, 2)), None, None))
             # sweep: every corpus module, straight playback with an interpolating mixer (sample swaps, extreme periods, key-off /
             # delay combinations and the like live in individual test modules)
-            for f in files:
+            for f in [f for f in V.corpus_files() if os.path.getsize(f) < 4000000]:
                 jobs.append((f, rng.choice((1, 2)), "P%d" % (160 if tier == "quick" else 1500), None))
             # generated XMs whose volume envelope has out-of-order / duplicate / extreme nodes, sustain and loop points anywhere
             for i in range(30 if tier == "quick" else 600):
